@@ -337,4 +337,172 @@ VcLead(c) == FALSE
 (* 6. Arbitrary bytes into the decoders: a value or an error, never a panic.  *)
 (* o = [n, values, errors, panics] aggregated per (decoder, generator).       *)
 NeverPanics(o) == o.panics = 0 /\ o.values + o.errors = o.n
+
+-----------------------------------------------------------------------------
+(* 7. Frames through the read loops of the REAL transports                    *)
+(* "Never panics on arbitrary bytes" is owed by every place in which a        *)
+(* transport turns received bytes into messages, not only by the decode       *)
+(* functions: the frame is one JSON text (or a fragment) of a structural edge *)
+(* class, laid out with seeded white space, and is handed to                  *)
+(*   ioconn.read       ioConn.Read called directly (newline-delimited stream) *)
+(*   io.server         a real ServerSession over IOTransport: the jsonrpc2    *)
+(*   io.client         / a real ClientSession  read loop calls ioConn.Read    *)
+(*   sse.client.read   sseClientConn.Read (data of an SSE event)              *)
+(*   sse.server.post   SSEServerTransport.ServeHTTP (POST body)               *)
+(*   http.post.*       StreamableHTTPHandler.ServeHTTP (POST body; stateless, *)
+(*                     stateful)                                              *)
+(*   http.client.json  streamable client: body of an application/json        *)
+(*   http.client.sse   response / data of an event of a POST's SSE response   *)
+(* A panic in a goroutine of the SDK (the reader goroutines of jsonrpc2, of   *)
+(* ioConn and of the streamable client) cannot be recovered: it ends the      *)
+(* process, and the run attributes the crash to the case in flight            *)
+(* (outcome "crash").                                                         *)
+
+FrScalars   == {"null", "num", "str", "bool"}
+FrObjects   == {"obj-empty", "obj-msg", "obj-notif", "obj-resp", "obj-bad"}
+FrArrays    == {"arr-empty", "arr-arr-empty", "arr-null", "arr-scalar", "arr-obj-empty", "arr-one", "arr-two",
+                "arr-notifs", "arr-resp", "arr-dupid", "arr-bad-last", "arr-bad-first", "arr-nested-msg",
+                "arr-huge", "arr-huge-null", "deep"}
+FrTruncated == {"truncated-arr", "truncated-obj"}
+FrShapes    == {"empty", "ws", "two-values"} \cup FrScalars \cup FrObjects \cup FrArrays \cup FrTruncated
+\* white space: none / between the tokens of the frame (`[ ]`, `[\t]`, `[\n]`) / around the frame
+FrPads  == {"none", "inner", "outer"}
+\* what ends the frame on a newline-delimited stream: LF, CR LF, or the end of the stream
+FrTerms == {"lf", "crlf", "eof", "na"}
+FrNdPaths   == {"ioconn.read", "io.server", "io.client"}
+FrHttpPaths == {"sse.client.read", "sse.server.post", "http.post.stateless", "http.post.stateful",
+                "http.client.json", "http.client.sse"}
+FrPaths == FrNdPaths \cup FrHttpPaths
+\* first: the frame is the first thing the reader gets (before any handshake); after: after a complete
+\* handshake (sessions) / after a valid message (direct reads), with the protocol version `proto` negotiated
+FrPoss   == {"first", "after"}
+\* batches are legal JSON-RPC below 2025-06-18 and refused from then on
+FrProtos == {"2025-03-26", "2025-11-25"}
+
+FrCases == { [shape |-> s, pad |-> p, term |-> t, path |-> pa, pos |-> po, proto |-> pr] :
+               s \in FrShapes, p \in FrPads, t \in FrTerms, pa \in FrPaths, po \in FrPoss, pr \in FrProtos }
+ValidFr(c) ==
+  /\ (c.term # "na") <=> (c.path \in FrNdPaths)
+  /\ c.shape \in FrTruncated => c.term \in {"eof", "na"}        \* nothing can follow an unfinished JSON text
+  /\ c.shape \in {"empty", "ws"} => c.pad = "none"
+  \* no version has been negotiated before the handshake (the version header of a first POST is `proto`)
+  /\ (c.pos = "first" /\ c.path \notin {"http.post.stateless", "http.post.stateful"}) => c.proto = "2025-03-26"
+  /\ c.path \in {"sse.server.post", "http.post.stateless"} => c.pos = "first"
+  \* the streamable client decodes responses: the frame answers a call of an established session
+  /\ c.path \in {"http.client.json", "http.client.sse"} => c.pos = "after"
+  /\ c.path \in {"sse.client.read", "sse.server.post"} => c.proto = "2025-03-26"
+FrCaseSet == {c \in FrCases : ValidFr(c)}
+
+\* every member of the frame is a message the reader accepts (and a batch is not empty, no call id twice)
+FrWellFormed(s) == s \in {"obj-msg", "obj-notif", "obj-resp", "arr-one", "arr-two", "arr-notifs", "arr-resp", "arr-huge"}
+FrIsBatch(s)    == s \in FrArrays \cup {"null"}     \* `null` unmarshals into a (nil) slice of raw messages
+\* nothing but white space: the reader of a stream does not see a frame at all
+FrVoid(s)       == s \in {"empty", "ws"}
+
+\* Outcome [out]: "value" (a message came out / the POST was accepted / the session is still served after the
+\* frame), "error" (a read error, an HTTP error status, the session ended), "panic" (recovered in the calling
+\* goroutine), "crash" (the process died while this case was in flight), "hang" (neither within the time limit).
+FrOuts == {"value", "error", "panic", "crash", "hang"}
+
+\* Code shape (transport.go readBatch / ioConn.Read, streamable.go servePOST, sse.go): a frame that is not
+\* well formed is a read error (400 over HTTP); a well-formed batch is refused once a version >= 2025-06-18
+\* is known to the reader; the legacy SSE paths and the streamable client decode one message per body/event
+\* (jsonrpc2.DecodeMessage), so every array is an error there; a stream that ends with the frame ends the
+\* session.  Where the result depends on more than the frame (what a session does with a well-formed
+\* message before / after its handshake) both "value" and "error" are expected.
+ExpectedFr(c) ==
+  LET s == c.shape
+      single == c.path \in {"sse.client.read", "sse.server.post", "http.client.json", "http.client.sse"}
+      versioned == \/ c.path \in {"http.post.stateless", "http.post.stateful"}
+                   \/ c.pos = "after"
+      refused == FrIsBatch(s) /\ versioned /\ c.proto = "2025-11-25"
+  IN IF FrVoid(s) THEN (IF c.path = "ioconn.read" /\ c.term # "eof" THEN {"value"}   \* the next line is read
+                        ELSE IF c.path \in {"io.server", "io.client"} /\ c.term # "eof" THEN {"value", "error"}
+                        ELSE {"error"})
+     ELSE IF ~FrWellFormed(s) \/ refused \/ (single /\ FrIsBatch(s)) THEN {"error"}
+     ELSE IF c.path = "ioconn.read" THEN {"value"}
+     ELSE IF c.path \in {"io.server", "io.client"} /\ c.term = "eof" THEN {"error"}
+     ELSE {"value", "error"}
+
+\* the property: whatever the bytes, the reader produces a message or an error
+NoPanicFr(c, o) == o.out \notin {"panic", "crash"}
+HoldsFr(c, o)   == NoPanicFr(c, o)
+
+-----------------------------------------------------------------------------
+(* 8. Arity of the list- and map-valued members of the result types           *)
+(* Every result type, every member that is a list or a map, left nil, empty   *)
+(* (non-nil) or with one element: encode, decode again (internal/json and the *)
+(* type's own UnmarshalJSON, as a receiving session does), compare.           *)
+(* Rows: type, member, how nil / empty / one element are spelled on the wire  *)
+(* by the type ("absent", "null", "empty", "one", "single" = the element      *)
+(* itself instead of a list), and what a wire null decodes to.                *)
+ArTable ==
+  { <<"CallToolResult", "content", "null", "empty", "one", "empty">>,
+    <<"CallToolResult", "_meta", "absent", "absent", "one", "nil">>,
+    <<"CallToolResult", "inputRequests", "absent", "empty", "one", "nil">>,
+    <<"GetPromptResult", "messages", "null", "empty", "one", "nil">>,
+    <<"GetPromptResult", "_meta", "absent", "absent", "one", "nil">>,
+    <<"GetPromptResult", "inputRequests", "absent", "empty", "one", "nil">>,
+    <<"ReadResourceResult", "contents", "null", "empty", "one", "nil">>,
+    <<"ReadResourceResult", "_meta", "absent", "absent", "one", "nil">>,
+    <<"ReadResourceResult", "inputRequests", "absent", "empty", "one", "nil">>,
+    <<"ListToolsResult", "tools", "null", "empty", "one", "nil">>,
+    <<"ListToolsResult", "_meta", "absent", "absent", "one", "nil">>,
+    <<"ListPromptsResult", "prompts", "null", "empty", "one", "nil">>,
+    <<"ListPromptsResult", "_meta", "absent", "absent", "one", "nil">>,
+    <<"ListResourcesResult", "resources", "null", "empty", "one", "nil">>,
+    <<"ListResourcesResult", "_meta", "absent", "absent", "one", "nil">>,
+    <<"ListResourceTemplatesResult", "resourceTemplates", "null", "empty", "one", "nil">>,
+    <<"ListResourceTemplatesResult", "_meta", "absent", "absent", "one", "nil">>,
+    <<"ListRootsResult", "roots", "null", "empty", "one", "nil">>,
+    <<"ListRootsResult", "_meta", "absent", "absent", "one", "nil">>,
+    <<"CompleteResult", "completion.values", "null", "empty", "one", "nil">>,
+    <<"CompleteResult", "_meta", "absent", "absent", "one", "nil">>,
+    <<"CreateMessageResult", "_meta", "absent", "absent", "one", "nil">>,
+    <<"CreateMessageWithToolsResult", "content", "empty", "empty", "single", "nil">>,
+    <<"CreateMessageWithToolsResult", "_meta", "absent", "absent", "one", "nil">>,
+    <<"InitializeResult", "_meta", "absent", "absent", "one", "nil">>,
+    <<"DiscoverResult", "supportedVersions", "null", "empty", "one", "nil">>,
+    <<"DiscoverResult", "_meta", "absent", "absent", "one", "nil">>,
+    <<"ElicitResult", "content", "absent", "absent", "one", "nil">>,
+    <<"ElicitResult", "_meta", "absent", "absent", "one", "nil">>,
+    <<"SubscriptionsListenResult", "_meta", "null", "empty", "one", "nil">> }
+ArRow(t, m) == CHOOSE r \in ArTable : r[1] = t /\ r[2] = m
+ArArities == {"nil", "empty", "one"}
+\* the results of the multi-round-trip methods carry a result type ("input_required": the result asks for input)
+ArMrtr == {"CallToolResult", "GetPromptResult", "ReadResourceResult"}
+ArRts  == {"complete", "input_required"}
+\* bare: every other member left zero; full: the other members of the result filled in
+ArFills == {"bare", "full"}
+ArCases == { [type |-> r[1], member |-> r[2], arity |-> a, rt |-> rt, fill |-> f] :
+               r \in ArTable, a \in ArArities, rt \in ArRts, f \in ArFills }
+ValidAr(c) == c.rt = "input_required" => c.type \in ArMrtr
+ArCaseSet == {c \in ArCases : ValidAr(c)}
+
+ArWire(c) == LET r == ArRow(c.type, c.member) IN
+             CASE c.arity = "nil" -> r[3] [] c.arity = "empty" -> r[4] [] c.arity = "one" -> r[5]
+\* The SDK's own type spells nil and empty differently on the wire, and both spellings are legitimate ones:
+\* nil by leaving the member out, empty by an empty container.  (A null is not a spelling a peer may rely
+\* on: required members are never null in what the SDK sends, see RequiredPresent.)  For these members
+\* "empty" and "nil" are two values - for inputRequests an empty map with result type input_required is the
+\* load-shedding signal, nil is a final result - and the round trip has to keep them apart.
+ArDistinguished(t, m) == LET r == ArRow(t, m) IN r[3] = "absent" /\ r[4] = "empty"
+
+\* Outcome [ok, wire, isnil, len, same, others]: the encoding decoded again; how the member was spelled in the
+\* encoding; the decoded member is nil; its length; its elements equal the original's; every other member
+\* (incl. the result type) equals the original's.
+ExpectedAr(c) ==
+  LET w == ArWire(c) IN
+  [ok |-> TRUE, wire |-> w,
+   isnil |-> (w = "absent" \/ (w = "null" /\ ArRow(c.type, c.member)[6] = "nil")),
+   len |-> IF c.arity = "one" THEN 1 ELSE 0, same |-> TRUE, others |-> TRUE]
+
+ArDecodes(c, o)   == o.ok
+ArSameLen(c, o)   == o.ok => o.len = (IF c.arity = "one" THEN 1 ELSE 0)
+ArSameElems(c, o) == o.ok => o.same
+ArOthersKept(c, o) == o.ok => o.others
+\* nil and empty are kept apart where the SDK's types distinguish them on the wire
+ArNilKept(c, o)   == (o.ok /\ ArDistinguished(c.type, c.member)) => (o.isnil <=> (c.arity = "nil"))
+HoldsAr(c, o) == ArDecodes(c, o) /\ ArSameLen(c, o) /\ ArSameElems(c, o) /\ ArOthersKept(c, o) /\ ArNilKept(c, o)
+ArLead(c) == FALSE
 =============================================================================
